@@ -44,4 +44,12 @@ Acc(s, T) == IF T = 0 THEN Delta(s, 0) ELSE Acc(s, T - 1) + (IF T \in Times THEN
 
 SummaryAlgorithmCorrect == \A T \in Times : \A s \in Status : Acc(s, T) = CountAt(T, s)
 StatusAlgorithmCorrect == \A u \in 1..NNodes : \A T \in 0..MaxT : AlgStatus(H[u], T) = StatusAt(H[u], T)
+
+\* Emission for the replay into a hand-built Simulation_Investigation object (extra coverage X02): the histories,
+\* the status of every node at every time, the counts of every status at every time, the set of change times.
+\* Used as an INVARIANT (PrintT is TRUE), one record per set of histories.
+EmitRecord == PrintT(<<"INV", H,
+                       [T \in 0..MaxT |-> [u \in 1..NNodes |-> StatusAt(H[u], T)]],
+                       [T \in 0..MaxT |-> <<CountAt(T, "S"), CountAt(T, "I"), CountAt(T, "R")>>],
+                       Times>>)
 =============================================================================
